@@ -195,7 +195,8 @@ def cfg_params(cfgname):
 # --------------------------------------------------------------------------- driving the harness
 
 def run_harness(c, params, behaviours, tag, par=24, timeout=3000):
-    inp = dict(params=params, behaviours=behaviours, par=par)
+    vlib.log("[c17] replaying %d behaviours (%s) t=%.0fs" % (len(behaviours), tag, time.time() - c.t0))
+    inp = dict(params=params, behaviours=behaviours, par=par, restart_every=1 if c.tier == "thorough" else 3)
     inpath = os.path.join(c.work, "syncer_in_%s.json" % tag)
     json.dump(inp, open(inpath, "w"))
     outpath = os.path.join(c.work, "syncer_out_%s.json" % tag)
@@ -242,6 +243,7 @@ def e2e_scenarios(tier, rng):
 
 
 def run_e2e(c, scenarios):
+    vlib.log("[c17] %d e2e scenarios t=%.0fs" % (len(scenarios), time.time() - c.t0))
     inpath = os.path.join(c.work, "syncer_e2e_in.json")
     json.dump(dict(scenarios=scenarios), open(inpath, "w"))
     outpath = os.path.join(c.work, "syncer_e2e_out.json")
@@ -274,11 +276,14 @@ RACES = [("Race_Syncer_finder.cfg", "hashbyno-response-after-finder-timeout",
           "BlockFetcher.handleBlockRsp sends on the full responseCh, which nobody reads any more")]
 
 
-def race_replays(c):
+def race_hunt(c):
+    return [(cfg, name, what, vlib.tlc(SPEC_DIR, "MC_Syncer", cfg, os.path.join(c.work, "race"), workers=2, timeout=1500)) for cfg, name, what in RACES]
+
+
+def race_replays(c, hunted):
     """TLC finds the schedules in which the actor goroutine blocks forever (the model with the two 'late message' races
     enabled); each counterexample is replayed on the real syncer.  A reproduced block is a violation (never deadlocks)."""
-    for cfg, name, what in RACES:
-        res = vlib.tlc(SPEC_DIR, "MC_Syncer", cfg, os.path.join(c.work, "race"), workers=4, timeout=1500)
+    for cfg, name, what, res in hunted:
         c.add_tlc(res, "race hunt %s (expected: NoActorBlock violated)" % cfg)
         if res.violation != "NoActorBlock" or not res.error_trace:
             raise vlib.Infra("race hunt %s did not produce the expected counterexample (%s)\n%s" % (cfg, res.violation, res.out[-2000:]))
@@ -338,8 +343,13 @@ def run(c):
     if thorough:
         mcs.append(("MC_Syncer_big.cfg", "Syncer design, larger instance"))
     mc_results = []
+    hunted = []
 
     def mc_thread():
+        try:
+            hunted.extend(race_hunt(c))
+        except Exception as e:
+            hunted.append(e)
         for cfg, what in mcs:
             try:
                 mc_results.append((vlib.tlc(SPEC_DIR, "MC_Syncer", cfg, os.path.join(c.work, "mc"), workers=6 if not thorough else 10,
@@ -366,10 +376,14 @@ def run(c):
             run_harness(c, cfg_params("Sim_Syncer.cfg"), bs2, "sim")
         # 4. end-to-end against real chain services (real anchor constants, real findAncestor, real AddBlock/reorg)
         if not c.violations:
-            r = run_e2e(c, e2e_scenarios(c.tier, rng))
-            c.notes.extend((r.get("notes") or [])[:6])
+            run_e2e(c, e2e_scenarios(c.tier, rng))
     finally:
         th.join()
+    # 5. the schedules in which TLC sees the actor block forever, replayed on the real code
+    if not c.violations and not os.environ.get("VERIF_C17_SKIP_RACES"):     # (switch for demonstrations only)
+        if not hunted or isinstance(hunted[-1], Exception):
+            raise vlib.Infra("race hunt failed: %s" % (hunted[-1:] or "did not run"))
+        race_replays(c, hunted)
     for res, what in mc_results:
         if isinstance(res, Exception):
             raise vlib.Infra("TLC run '%s' failed: %s" % (what, res))
